@@ -287,6 +287,8 @@ type Loop struct {
 	Spec    *LoopSpec
 	Parent  *Loop
 	MinPos  token.Pos
+	Region  map[*ssa.BasicBlock]bool // natural loop plus the blocks of the source loop statement that only lead out of it (break/return paths)
+	SrcPos, SrcEnd token.Pos
 	RangeIdx *ssa.Alloc // hidden index cell of a range-over-slice loop
 	RangeLen ssa.Value
 	MapRange *ssa.Range
@@ -403,6 +405,7 @@ func (e *Engine) loopsOf(f *ssa.Function) []*Loop {
 			l.Label = src[best].label
 			l.Text = src[best].text
 			l.Ordinal = best + 1
+			l.SrcPos, l.SrcEnd = src[best].pos, src[best].end
 		}
 	}
 	// a loop without instructions carrying positions in its header may grab the wrong source loop; resolve by order
@@ -413,6 +416,36 @@ func (e *Engine) loopsOf(f *ssa.Function) []*Loop {
 		l.Name = fmt.Sprintf("#%d", l.Ordinal)
 		if l.Label != "" {
 			l.Name = l.Label
+		}
+	}
+	// regions: exit paths written inside the loop statement belong to the iteration that takes them
+	for _, l := range loops {
+		l.Region = map[*ssa.BasicBlock]bool{}
+		for b := range l.Body {
+			l.Region[b] = true
+		}
+		if !l.SrcPos.IsValid() {
+			continue
+		}
+		for _, b := range f.Blocks {
+			if l.Region[b] || !l.Header.Dominates(b) {
+				continue
+			}
+			inside, positioned := true, false
+			for _, in := range b.Instrs {
+				if _, isDbg := in.(*ssa.DebugRef); isDbg {
+					continue
+				}
+				if p := in.Pos(); p.IsValid() {
+					positioned = true
+					if p < l.SrcPos || p >= l.SrcEnd {
+						inside = false
+					}
+				}
+			}
+			if inside && positioned {
+				l.Region[b] = true
+			}
 		}
 	}
 	// parents
